@@ -572,7 +572,7 @@ def rule_frontiers(ctx, rep, config="c-lib"):
         rep.violation("R16-frontiers", key, "the state that starts one token later is pushed under `position %s %r', not while a token (the end marker included) is left: no "
                       "state ever starts at the end marker, and an input whose only repair is to ignore everything up to the end finds no recovery (best_state is used "
                       "unset: start and stop are -1)" % ({"slt": "<", "sle": "<=", "sge": ">=", "sgt": ">"}.get(pr, pr), bl), where=cc.where(), witness=[cc.where(), c.where()])
-    rep.floor("R16-frontiers", "frontier obligations", n, 3)
+    rep.floor("R16-frontiers", "frontier obligations", n, 2)   # pl_curr and the head frontier; tok_curr only where the block assigns it (R16-frontier-state decides what the pushed state starts at)
 
 
 def rule_acceptance_at_end(ctx, rep, config="c-lib"):
@@ -733,3 +733,118 @@ def rule_hop_cost(ctx, rep, config="c-lib"):
                           "counted: back_to_frontier_move_cost is one too small per hop -- the first ignored token reported to syntax_error is too large and fewer "
                           "tokens are reported ignored than the tree shows replaced by `error'", where=c.where(), witness=[c.where()])
     rep.floor("R16-hop", "hops of the back frontier", n, 1)
+
+
+def rule_frontier_state(ctx, rep, config="c-lib"):
+    rep.rule("R16-frontier-state", "a recovery state made for a set found by find_error_pl_set (a new back frontier) has skipped nothing forward yet: the cost it is pushed "
+                                   "with is the number of tokens between that set and the error token, and that same number is its back_toks -- syntax_error's range is "
+                                   "[error token - back_toks, ... + cost): a back_toks smaller than the distance gone back puts the range behind the tokens really "
+                                   "dropped (past the end of the input when the recovery only meets the end marker)")
+    p = ctx.prog(config)
+    f = p.fn("error_recovery")
+    rep.cover(p, [f.name])
+    finds = set(c.id for c in f.calls() if c.callee == "find_error_pl_set")
+
+    def from_find(op, depth=0):
+        o = strip_int_casts(f, op)
+        if o.get("k") != "i" or depth > 4:
+            return False
+        if o["v"] in finds:
+            return True
+        i = f.inst(o)
+        if i is not None and i.op == "phi":
+            return all(from_find(v, depth + 1) for (v, _) in i.d["incoming"])
+        if i is not None and i.op == "load":
+            # a file-level variable: what every store of this function that reaches the load put there
+            a = resolve_addr(f, i.ops[0])
+            if a.root[0] != "g" or a.steps:
+                return False
+            sts = [s_ for s_ in f.all_insts() if s_.op == "store" and resolve_addr(f, s_.ops[1]).root == a.root and not resolve_addr(f, s_.ops[1]).steps]
+            reach = [s_ for s_ in sts if path_exists(f, s_, i, [x for x in sts if x is not s_])]
+            return bool(reach) and all(from_find(s_.ops[0], depth + 1) for s_ in reach)
+        return False
+    from .r14 import path_exists
+    n = 0
+    for c in f.calls():
+        if c.callee != "push_recovery_state" or len(c.args) < 3 or not from_find(c.args[0]):
+            continue
+        n += 1
+        key = "error_recovery/frontier-state#%d" % n
+        a, b = expr.lin(f, c.args[1], 0, 0), expr.lin(f, c.args[2], 0, 0)
+        same = repr(a) == repr(b)
+        if not same:
+            # two reads of one variable whose address was handed out (`&backward_move_cost'), with nothing in between that can write it
+            expr.NAMED[0] = True
+            try:
+                na, nb = expr.lin(f, c.args[1], 0, 4), expr.lin(f, c.args[2], 0, 4)
+            finally:
+                expr.NAMED[0] = False
+            la, lb = f.inst(strip_int_casts(f, c.args[1])), f.inst(strip_int_casts(f, c.args[2]))
+            if repr(na) == repr(nb) and la is not None and lb is not None and la.op == "load" and lb.op == "load" and la.block is lb.block:
+                lo, hi = sorted((la.idx, lb.idx))
+                same = not any(x.op in ("store", "call") for x in la.block.insts[lo + 1:hi])
+                a = na
+        if same:
+            rep.ok("R16-frontier-state", key, sample={"push": c.where(), "cost = back_toks": repr(a)})
+        else:
+            rep.violation("R16-frontier-state", key, "the state of a new back frontier is pushed with cost %r but back_toks %r: the first token reported ignored "
+                          "(error token - back_toks) is not the first token dropped, and the range runs past the tokens replaced" % (a, b),
+                          where=c.where(), witness=[c.where()])
+    # (2) the token such a state starts at (new_recovery_state takes it from the file-level tok_curr) is the error token: start_tok_curr
+    def writes(g, names, memo, depth=0):
+        if g.name in memo:
+            return memo[g.name]
+        memo[g.name] = False
+        r = False
+        for i in g.all_insts():
+            if i.op == "store":
+                a = resolve_addr(g, i.ops[1])
+                if a.root[0] == "g" and a.root[1] in names and not a.steps:
+                    r = True
+            elif i.is_call() and depth < 8:
+                for t in p.call_targets(g, i):
+                    h = p.m.functions.get(t)
+                    if h is not None and not h.decl and writes(h, names, memo, depth + 1):
+                        r = True
+            if r:
+                break
+        memo[g.name] = r
+        return r
+    names = ("tok_curr", "start_tok_curr")
+    memo = {}
+    good, bad = [], []
+    for i in f.all_insts():
+        if i.op == "store":
+            a = resolve_addr(f, i.ops[1])
+            if a.root[0] != "g" or a.root[1] not in names or a.steps:
+                continue
+            src = loaded_from(f, i.ops[0])
+            other = names[1 - names.index(a.root[1])]
+            if src is not None and src.root == ("g", other) and not src.steps:
+                good.append(i)
+            else:
+                bad.append(i)
+        elif i.is_call() and i.callee != "push_recovery_state":
+            for t in p.call_targets(f, i):
+                h = p.m.functions.get(t)
+                if h is not None and not h.decl and writes(h, names, memo):
+                    bad.append(i)
+                    break
+    if not good:
+        raise AnalysisBroken("R16-frontier-state: no assignment between tok_curr and start_tok_curr found in error_recovery")
+    entry = f.blocks[0].insts[0]
+    k = 0
+    for c in f.calls():
+        if c.callee != "push_recovery_state" or len(c.args) < 3 or not from_find(c.args[0]):
+            continue
+        k += 1
+        key = "error_recovery/frontier-state-starts-at-error-token#%d" % k
+        off = [b for b in bad + [entry] if b is not c and path_exists(f, b, c, good)]
+        if off:
+            rep.violation("R16-frontier-state", key, "the state of a new back frontier is made while tok_curr need not be the error token (start_tok_curr): after %s "
+                          "the push is reached without `tok_curr = start_tok_curr' -- the state starts behind tokens that were skipped for another state and are "
+                          "counted nowhere: fewer tokens are reported ignored than the tree lost" % off[0].where(), where=c.where(),
+                          witness=[off[0].where(), c.where()])
+        else:
+            rep.ok("R16-frontier-state", key, sample={"push": c.where(), "tok_curr = start_tok_curr at": [g.where() for g in good][:3]})
+    rep.floor("R16-frontier-state", "pushes of back-frontier states", n, 2)
